@@ -68,10 +68,15 @@ impl Prop for C04 {
                 hp.max_calls = 25;
             }
             "end" => {
+                // machines that end: through ordinary events, Signal, LimitReached and CounterZero chains
                 mp.w_end = 5;
                 mp.w_signal = 3;
                 mp.max_states = 3;
                 mp.p_trans[12] = 0.7;
+                mp.p_trans[9] = 0.7;
+                mp.p_trans[8] = 0.5;
+                mp.p_counter = 0.6;
+                mp.p_limit = 0.5;
             }
             _ => panic!("unknown profile"),
         }
